@@ -67,6 +67,8 @@ type Ctx struct {
 	exhaustive bool
 	start      time.Time
 	deadline   time.Time
+	memCalls   int
+	memOver    bool
 }
 
 // Thorough reports whether the thorough tier was requested.
@@ -78,11 +80,53 @@ func (c *Ctx) Mine(i int) bool { return i%c.NShards == c.Shard }
 // Expired reports whether the internal deadline has passed; the first time it is seen the run is
 // marked non-exhaustive.
 func (c *Ctx) Expired() bool {
+	if c.overBudget() {
+		return true
+	}
 	if c.deadline.IsZero() || time.Now().Before(c.deadline) {
 		return false
 	}
 	c.Cap("internal deadline reached; remaining work items skipped")
 	return true
+}
+
+// overBudget: executions that involve the batching pool leave its goroutines parked for good
+// (rend has no way to stop them), so a worker that runs very many of them grows without bound. A
+// worker whose resident size passes the budget (VERIF_MEM_MB, default 3000) stops taking work; the
+// run is then reported as capped, never as a violation.
+func (c *Ctx) overBudget() bool {
+	c.mu.Lock()
+	defer c.mu.Unlock()
+	if c.memOver {
+		return true
+	}
+	c.memCalls++
+	if c.memCalls%256 != 0 {
+		return false
+	}
+	b, err := os.ReadFile("/proc/self/statm")
+	if err != nil {
+		return false
+	}
+	var size, rss int64
+	fmt.Sscan(string(b), &size, &rss)
+	limit := int64(3000)
+	if v, err := strconv.Atoi(os.Getenv("VERIF_MEM_MB")); err == nil && v > 0 {
+		limit = int64(v)
+	}
+	if rss*int64(os.Getpagesize())/(1<<20) > limit {
+		c.memOver = true
+		c.exhaustive = false
+		msg := fmt.Sprintf("a worker reached its memory budget of %d MB (parked goroutines of the batching pool accumulate); its remaining work items were skipped", limit)
+		found := false
+		for _, x := range c.caps {
+			found = found || x == msg
+		}
+		if !found {
+			c.caps = append(c.caps, msg)
+		}
+	}
+	return c.memOver
 }
 
 // Cap records that some bound cut the exploration short of the stated space.
